@@ -302,6 +302,7 @@ class Scheduler:
             status = "overrun"
         blocked = {mt.idx: getattr(mt.blocked_on, "name", None) or id(mt.blocked_on)
                    for mt in self.mts if not mt.done and mt.blocked_on is not None}
+        blocked_locks = {mt.idx: mt.blocked_on for mt in self.mts if not mt.done and mt.blocked_on is not None}
         unfinished = [mt.idx for mt in self.mts if not mt.done]
         if status != "ok":
             self._abort()
@@ -316,7 +317,8 @@ class Scheduler:
                 if lk.owner in idents:
                     leaked.append((idents[lk.owner], lk.name or hex(id(lk))))
         return {"status": status, "trace": list(self.trace), "points": self.points,
-                "nsteps": list(self.nsteps), "blocked": blocked, "unfinished": unfinished,
+                "nsteps": list(self.nsteps), "blocked": blocked, "blocked_locks": blocked_locks,
+                "unfinished": unfinished,
                 "leaked": leaked, "excs": {mt.idx: mt.exc for mt in self.mts if mt.exc is not None},
                 "change_hit": sorted(getattr(policy, "hit", ())),
                 "switch_sites": list(self.switch_sites), "site_seq": self.site_seq}
